@@ -119,7 +119,36 @@ def run_select(ctx):
         ctx.violation("select", "key-from-configured-field", "the hashed key is not the event's value of the configured partition field", site=h["span"])
 
 
+def run_fresh_key(ctx):
+    """the fields map from which select_replica takes the partition key must belong to the CURRENT event only: when the call sits
+    in a loop over a batch, the map has to be created inside that loop (a map created once before the loop and filled per
+    event keeps the previous events' fields, so a key-less event is routed by its predecessor's key)"""
+    from vpr.prov import Slicer
+    F = ctx.facts()
+    n = 0
+    for c in F.calls_to(SELECT):
+        b = ctx.body(c["f"])
+        t = b.term(c["bb"])
+        if len(t["args"]) < 2 or not b.in_loop(c["bb"]):
+            continue
+        n += 1
+        fn = root_fn(c["f"]).rsplit("::", 1)[1]
+        # constructors of the map local: calls whose destination is the (root) local of the argument
+        o = Slicer(b).origins([t["args"][1]], through_calls="none")
+        ctor_blocks = [bb for cal, inst, bb in o.calls if (inst or cal).endswith(("::new", "::default", "::with_capacity")) and "Map" in (inst or cal)]
+        key = "fresh-key:%s" % fn
+        if not ctor_blocks:
+            ctx.ok("siblings", key, "the key source is not a locally built map (%s)" % sorted(o.call_names())[:3], nontrivial=False)
+            continue
+        if all(b.in_loop(bb) for bb in ctor_blocks):
+            ctx.ok("siblings", key, "the fields map is created per event inside the batch loop", site=t["sp"])
+        else:
+            ctx.violation("siblings", key, "%s builds the fields map it hands to select_replica once, outside the loop over the batch, and fills it per event: fields of earlier events persist, so an event without the partition key is routed by a predecessor's key — batch routing disagrees with single injection" % fn, site=t["sp"])
+    ctx.floor("siblings", "select_replica calls inside a batch loop", n, 1)
+
+
 def run(ctx):
+    ctx.guard("siblings", lambda: run_fresh_key(ctx))
     ctx.guard("first-match", lambda: run_first_match(ctx))
     ctx.guard("pattern", lambda: run_pattern(ctx))
     ctx.guard("siblings", lambda: run_siblings(ctx))
